@@ -16,9 +16,14 @@ func vhIndexSetup() (*vhIndexEnv, *Index) {
 	return e, &Index{db: e.db, root: root}
 }
 
-// a search key: 0, 1 or 2 columns; column 0 is NULL or any int64
-func vhKey(e *vhIndexEnv) (Key, vhEnt, int) {
-	nk := verifChoice(3)
+// a search key of 0..3 columns; column 0 is NULL or any int64, column 1 any
+// rowid, column 2 (one more than any stored record has) NULL or any int64 with
+// either direction: a stored record that is a proper prefix of the key sorts
+// before it.
+func vhKey(e *vhIndexEnv) (Key, vhEnt, int) { return vhKeyN(e, 3) }
+
+func vhKeyN(e *vhIndexEnv, maxCols int) (Key, vhEnt, int) {
+	nk := verifChoice(maxCols + 1)
 	var kv vhEnt
 	key := Key{}
 	if nk >= 1 {
@@ -30,9 +35,16 @@ func vhKey(e *vhIndexEnv) (Key, vhEnt, int) {
 			key = append(key, KeyCol{V: kv.k, Desc: e.desc})
 		}
 	}
-	if nk == 2 {
+	if nk >= 2 {
 		kv.rowid = verifInt64()
 		key = append(key, KeyCol{V: kv.rowid})
+	}
+	if nk == 3 {
+		if verifBool() {
+			key = append(key, KeyCol{V: nil, Desc: verifBool()})
+		} else {
+			key = append(key, KeyCol{V: verifInt64(), Desc: verifBool()})
+		}
 	}
 	return key, kv, nk
 }
@@ -58,12 +70,19 @@ func vhEntGE(en, kv vhEnt, nk int, desc bool) bool {
 	if nk == 1 {
 		return c >= 0
 	}
+	if nk == 3 {
+		// equal on both stored columns: the record is a proper prefix of the key, hence smaller
+		return verifOr(c > 0, verifAnd(c == 0, en.rowid > kv.rowid))
+	}
 	return verifOr(c > 0, verifAnd(c == 0, en.rowid >= kv.rowid))
 }
 
 func vhEntEQ(en, kv vhEnt, nk int) bool {
 	if nk == 0 {
 		return true
+	}
+	if nk == 3 {
+		return false // no stored record has a third column
 	}
 	same := verifOr(verifAnd(en.null, kv.null), verifAnd(verifAnd(!en.null, !kv.null), en.k == kv.k))
 	if nk == 1 {
@@ -89,7 +108,7 @@ func VH_C13_scan_full() {
 }
 
 //verif:shards 8
-//verif:bounds as VH_C13_scan_full; key of 0..2 columns (NULL or any int64, any rowid)
+//verif:bounds as VH_C13_scan_full; key of 0..3 columns (NULL or any int64, any rowid, a third column no record has)
 func VH_C13_scan_min() {
 	e, in := vhIndexSetup()
 	if len(e.ents) > 5 && verifTier() == 0 {
@@ -151,8 +170,9 @@ func VH_C13_scan_range() {
 		verifReach("end")
 		return
 	}
-	from, fv, fn := vhKey(e)
-	to, tv, tn := vhKey(e)
+	// two free keys: the over-long third column only in the thorough tier
+	from, fv, fn := vhKeyN(e, 2)
+	to, tv, tn := vhKeyN(e, 2+verifTier())
 	var got []Record
 	err := in.ScanRange(from, to, func(r Record) bool { got = append(got, r); return false })
 	verifAssert(err == nil, "range scan succeeds")
@@ -311,6 +331,70 @@ func VH_C13_text_collation() {
 			s, ok1 := got[i][0].(string)
 			r, ok2 := got[i][1].(int64)
 			verifAssert(ok1 && ok2 && s == want[i].s && r == want[i].rowid, "entries in index order")
+		}
+	}
+	verifReach("end")
+}
+
+// C12, table side: rows whose records spill to an overflow page; the k-th page
+// read fails while scanning or looking a row up by rowid.
+//verif:bounds table leaf of 2 rows (rowids, values symbolic) each spilling to one overflow page; operations Table.Scan and Table.Rowid(present or absent rowid); failing page read k = any ordinal (one-shot)
+func VH_C12_table_overflow() {
+	e := vhNewEnv()
+	l := &tableLeaf{}
+	var rows []vhRow
+	for i := 0; i < 2; i++ {
+		r := vhRow{rowid: verifInt64(), val: verifInt64()}
+		if i > 0 {
+			verifAssume(rows[i-1].rowid < r.rowid)
+		}
+		rows = append(rows, r)
+		full := vhRecInt(r.val).Payload
+		pg := make([]byte, 512)
+		copy(pg[4:], full[4:])
+		id := 200 + i
+		e.pager.IDs = append(e.pager.IDs, id)
+		e.pager.Bufs = append(e.pager.Bufs, pg)
+		l.cells = append(l.cells, tableLeafCell{left: r.rowid, payload: cellPayload{Length: int64(len(full)), Payload: full[:4], Overflow: id}})
+	}
+	t := &Table{db: e.db, root: e.newPage(l)}
+	k := verifInt()
+	verifAssume(k >= 1)
+	e.pager.FailAt = k
+	if verifChoice(2) == 0 {
+		var ids, vals []int64
+		err := t.Scan(func(id int64, r Record) bool {
+			v, _ := r[0].(int64)
+			ids, vals = append(ids, id), append(vals, v)
+			return false
+		})
+		if e.pager.Reads >= k {
+			verifAssert(err != nil, "a failed page read is reported")
+			verifReach("faulted")
+		} else {
+			verifAssert(err == nil && len(ids) == 2, "no fault: complete scan")
+		}
+		verifAssert(len(ids) <= 2, "never more rows than stored")
+		for i := range ids {
+			verifAssert(ids[i] == rows[i].rowid && vals[i] == rows[i].val, "delivered rows are a correct prefix")
+		}
+	} else {
+		want := verifInt64()
+		rec, err := t.Rowid(want)
+		present := -1
+		for i, r := range rows {
+			if r.rowid == want {
+				present = i
+			}
+		}
+		if e.pager.Reads >= k {
+			verifAssert(err != nil, "a failed page read is reported, not turned into 'no such row'")
+			verifReach("faulted")
+		} else if present >= 0 {
+			v, ok := rec[0].(int64)
+			verifAssert(err == nil && rec != nil && ok && v == rows[present].val, "present row returned")
+		} else {
+			verifAssert(err == nil && rec == nil, "absent row: nil, no error")
 		}
 	}
 	verifReach("end")
